@@ -69,13 +69,39 @@ Theorem C03_plain_lock_refuted :
 Proof. vm_compute. split; reflexivity. Qed.
 Print Assumptions C03_plain_lock_refuted.
 
+(* and the readers need the lock too (the defect repaired by /repo commit ae52c78): with the
+   table of the source before that commit -- no __len__/__contains__ in LRI, i.e. dict's own,
+   lock-free -- a thread reading len(c), k0 in c, k2 in c while another thread's c[k2] = v is
+   between the eviction's dict delete and dict insert gets (1, False, False) on a full LRI(2);
+   none of the four interleavings of the two programs returns that. *)
+Definition tb_unlocked_readers : lock_table :=
+  mkTable CtorRLock
+    (filter (fun g => negb (meth_eqb (g_meth g) MLen || meth_eqb (g_meth g) MContains))
+            (t_methods gen_table)).
+Definition rd_cfg : config := mkConfig LRI 2 None.
+Definition rd_sh0 : shared := run_ops tb_unlocked_readers rd_cfg shared_init [SetItem 0 1; SetItem 1 2].
+Definition rd_progs : nat -> list op :=
+  fun t => match t with 0 => [SetItem 2 3] | 1 => [Len; Contains 0; Contains 2] | _ => [] end.
+Definition rd_sched : list nat := repeat 0 15 ++ repeat 1 20 ++ repeat 0 20.
+Definition rd_serial_results (order : list nat) : list rv :=
+  let '(_, _, doneS) := serial_run tb_unlocked_readers rd_cfg rd_progs rd_sh0 order in doneS 1.
+
+Theorem C03_unlocked_readers_refuted :
+  let s := conc_run tb_unlocked_readers rd_cfg rd_progs rd_sh0 rd_sched in
+  t_done (m_thr s 1) = [RNat 1; RBool false; RBool false] /\ t_done (m_thr s 0) = [RNone] /\
+  forallb (fun order => negb (list_eqb rv_eqb (rd_serial_results order) (t_done (m_thr s 1))))
+          [[0; 1; 1; 1]; [1; 0; 1; 1]; [1; 1; 0; 1]; [1; 1; 1; 0]] = true /\
+  table_covered tb_unlocked_readers = false.
+Proof. vm_compute. repeat split; reflexivity. Qed.
+Print Assumptions C03_unlocked_readers_refuted.
+
 (* the hypotheses are inhabited by a non-trivial run: LRU(max_size=2) holding 0,1; thread 0
    reads key 0 then inserts key 2, thread 1 deletes key 1 then copies; thread 0 is pre-empted
    in the middle of its ring splice, thread 1 then has to wait for the lock *)
-Definition ex_progs : nat -> list lop :=
+Definition ex_progs : nat -> list op :=
   fun t => match t with
-           | 0 => [mk_lop (GetItem 0) eq_refl; mk_lop (SetItem 2 12) eq_refl]
-           | 1 => [mk_lop (DelItem 1) eq_refl; mk_lop Copy eq_refl]
+           | 0 => [GetItem 0; SetItem 2 12]
+           | 1 => [DelItem 1; Copy]
            | _ => []
            end.
 Definition ex_cfg : config := mkConfig LRU 2 None.
